@@ -86,6 +86,8 @@ def build_unit(name, unit):
             parts.append(f"impl {impl} {{\n" + "\n".join(texts) + "}\n")
         else:
             parts.append("\n".join(texts))
+    for o in log.pop("outlined_fns", []):
+        parts.append(o)
     parts.append(CANARY)
     parts.append("\n} // verus!\nfn main() {}\n")
     path = os.path.join(BUILD, f"{name}.rs")
